@@ -29,4 +29,17 @@ S2 == [kind \in {"sampled", "range", "set"} |->
            [] kind = "set"     -> {-4, 0, 4, 6, 12}]
 E2 == {0, 3}
 D2q == { Sam(2, 0), Rng(<<1, 1, 4>>), SetD(3) }
+
+\* rank 3: one descriptor of each kind in every order, positions of length 3 and 2
+D3 == { Sam(2, 0), Rng(<<1, 1, 4>>), SetD(3) }
+U3 == { UC("", "", "", ""), UC("u", "s", "m", "s") }
+S3 == [kind \in {"sampled", "range", "set"} |->
+         CASE kind = "sampled" -> {0, 3, 9}
+           [] kind = "range"   -> {-1, 1, 6}
+           [] kind = "set"     -> {0, 4, 12}]
+S3q == [kind \in {"sampled", "range", "set"} |->
+         CASE kind = "sampled" -> {3, 9}
+           [] kind = "range"   -> {1, 6}
+           [] kind = "set"     -> {4, 12}]
+E3 == {0, 3}
 =============================================================================
